@@ -1109,7 +1109,7 @@ STEPS = {
     "val_after": ("S", "S", "role", s_val_after),
 }
 
-FLOW_FAMS = sorted({v[2] for v in STEPS.values()} - {"role"})
+FLOW_FAMS = sorted({v[2] for v in STEPS.values()} - {"role", "conc"})   # "conc": steps with goroutines of their own (C13 / C14 only)
 
 # type-states whose carrier can be handed to sink() with the datum reachable from it
 SINKABLE = {"S", "B", "P", "PP", "PS", "ST", "SP", "PR", "SL", "PSL", "AR", "M", "MK", "I", "IB", "IF", "G", "GP"}
